@@ -49,3 +49,11 @@ pub assume_specification[ isize::abs ](x: isize) -> (r: isize)
 	ensures r as int == (if x < 0 { -(x as int) } else { x as int });
 pub assume_specification[ isize::signum ](x: isize) -> (r: isize)
 	ensures r as int == (if x > 0 { 1int } else if x < 0 { -1int } else { 0int });
+
+// <[T]>::rotate_left / rotate_right (ASSUMED std contracts): the first `mid` elements move to the end / the last `k` to the front
+pub assume_specification<T> [<[T]>::rotate_left] (s: &mut [T], mid: usize)
+	requires mid <= old(s)@.len()
+	ensures final(s)@ =~= old(s)@.subrange(mid as int, old(s)@.len() as int) + old(s)@.subrange(0, mid as int);
+pub assume_specification<T> [<[T]>::rotate_right] (s: &mut [T], k: usize)
+	requires k <= old(s)@.len()
+	ensures final(s)@ =~= old(s)@.subrange(old(s)@.len() - k as int, old(s)@.len() as int) + old(s)@.subrange(0, old(s)@.len() - k as int);
